@@ -114,6 +114,14 @@ pub struct HandlerRunner {
     retries: u64,
     ledger: Ledger,
     last_sig_cd: Option<u64>,
+    /// keys derived from the handshake described last / key that opened the datagram described last
+    last_hs_keys: Option<([u8; 16], [u8; 16])>,
+    last_ct_key: Option<[u8; 16]>,
+    /// (node, key) -> addresses the node may receive datagrams under that key from: where the
+    /// handshake carrying the key was delivered from (recipient) or sent to (initiator)
+    key_addrs: HashMap<(u64, [u8; 16]), Vec<SocketAddr>>,
+    cur_from: Option<SocketAddr>,
+    cur_key: Option<[u8; 16]>,
     delivering_handshake: bool,
     /// claimed source id (index) of the datagram being delivered in this step, if any
     cur_src: Option<u64>,
@@ -153,6 +161,11 @@ impl Default for HandlerRunner {
             retries: 1,
             ledger: Ledger::default(),
             last_sig_cd: None,
+            last_hs_keys: None,
+            last_ct_key: None,
+            key_addrs: HashMap::new(),
+            cur_from: None,
+            cur_key: None,
             delivering_handshake: false,
             cur_src: None,
             wire_dst_hint: None,
@@ -386,6 +399,7 @@ impl HandlerRunner {
                 let m = self.msg_term(&pt, owner);
                 // the 4-byte counter prefix of a message nonce is part of the term (C19)
                 let ctr = if handshake { 0 } else { u32::from_be_bytes([nonce[0], nonce[1], nonce[2], nonce[3]]) };
+                self.last_ct_key = Some(k);
                 return (format!("E[{}|{}|{}|{}|ok]", term, nonce_name, ctr, m), Some((k, pt)));
             }
         }
@@ -415,6 +429,8 @@ impl HandlerRunner {
         // what the AEAD must be bound to: the received header bytes (not the decoder's view of them)
         let aad = independent_aad(bytes, &local_id).unwrap_or(aad_impl);
         let nn = self.name_nonce(&p.nonce, owner);
+        self.last_hs_keys = None;
+        self.last_ct_key = None;
         match &p.kind {
             PacketKind::WhoAreYou { id_nonce, enr_seq } => {
                 let cd = self.name_cd(&aad, owner);
@@ -455,6 +471,7 @@ impl HandlerRunner {
                     if let Some(k) = lkey.as_ref().and_then(|lk| hf::recipient_keys(lk, &local_id, src_id, &cdb, ephem_pubkey)) {
                         let t_ini = format!("K:{}:{}:{}:{}:t", eph, cdn, src, local_idx);
                         let t_rcp = format!("K:{}:{}:{}:{}:f", eph, cdn, src, local_idx);
+                        self.last_hs_keys = Some((k.initiator_key, k.recipient_key));
                         if !self.keys.iter().any(|(kb, _)| *kb == k.initiator_key) {
                             self.keys.push((k.initiator_key, t_ini));
                             self.keys.push((k.recipient_key, t_rcp));
@@ -547,6 +564,7 @@ impl HandlerRunner {
                     if !self.cur_authentic {
                         out.push(format!("!MON C02 delivered-from-unauthenticated-datagram node={} kind=request", idx));
                     }
+                    self.mon_session_address(idx, "request", out);
                     self.nodes[ni].requests.push((na, *req));
                 }
                 HandlerOut::Response(na, resp) => {
@@ -558,6 +576,7 @@ impl HandlerRunner {
                     if !self.cur_authentic {
                         out.push(format!("!MON C02 delivered-from-unauthenticated-datagram node={} kind=response", idx));
                     }
+                    self.mon_session_address(idx, "response", out);
                     if let Some(l) = self.ledger.reqs.get_mut(&(idx, rid)) {
                         l.responses += 1;
                         if l.failures > 0 {
@@ -651,6 +670,11 @@ impl HandlerRunner {
             let term = self.describe(&bytes, dst_idx, idx, true).unwrap_or_else(|| "?".into());
             if self.cur_wru_foreign && term.starts_with("H~") {
                 out.push(format!("!MON C03 whoareyou-from-foreign-address-acted-on node={}", idx));
+            }
+            if let Some((_, k_rcp)) = self.last_hs_keys {
+                // the initiator's session lives at the address its handshake goes to
+                let e = self.key_addrs.entry((idx, k_rcp)).or_default();
+                if !e.contains(&dst) { e.push(dst); }
             }
             self.wire_dst_hint = Some(dst);
             self.mon_emitted(idx, dst_idx, &bytes, out);
@@ -773,6 +797,18 @@ impl HandlerRunner {
                     out.push(format!("!MON C03 handshake-accepted-after-challenge-expiry node={} age_ms={}", at, self.now_ms - armed_at));
                 }
             }
+        }
+    }
+
+    /// C02: session keys are bound to the address the handshake went through.  A datagram that opens
+    /// under a key but arrives from another address never yields a delivered message.
+    fn mon_session_address(&mut self, at: u64, kind: &str, out: &mut Vec<String>) {
+        let (Some(from), Some(k)) = (self.cur_from, self.cur_key) else { return };
+        match self.key_addrs.get(&(at, k)) {
+            Some(addrs) if addrs.contains(&from) => {}
+            Some(addrs) => out.push(format!(
+                "!MON C02 delivered-from-address-foreign-to-the-session node={} kind={} from={} session-at={:?}", at, kind, from, addrs)),
+            None => out.push(format!("!MON C02 delivered-under-key-of-no-session-of-this-node node={} kind={} from={}", at, kind, from)),
         }
     }
 
@@ -981,6 +1017,8 @@ impl HandlerRunner {
 
     fn step_world(&mut self, t: &[&str], out: &mut Vec<String>, stats: &mut Stats) {
         if t[0] != "hdel" {
+            self.cur_from = None;
+            self.cur_key = None;
             self.delivering_handshake = false;
             self.cur_src = None;
             self.cur_authentic = true;
@@ -1111,6 +1149,13 @@ impl HandlerRunner {
                 stats.bump("h.op.deliver");
                 self.last_sig_cd = None;
                 let term = self.describe(&d.bytes, tidx, d.from_idx, false);
+                if let Some((k_ini, _)) = self.last_hs_keys {
+                    // the recipient's session (if the handshake is accepted) lives at this source
+                    let e = self.key_addrs.entry((tidx, k_ini)).or_default();
+                    if !e.contains(&src) { e.push(src); }
+                }
+                self.cur_from = Some(src);
+                self.cur_key = self.last_ct_key;
                 self.delivering_handshake = term.as_ref().map(|t| t.starts_with("H~")).unwrap_or(false);
                 self.cur_authentic = term.as_ref().map(|t| t.contains("E[")).unwrap_or(false);
                 self.cur_wru_foreign = false;
